@@ -83,24 +83,98 @@ S = {
              first="missed (exit 0): methods were {GET, POST, HEAD, get, ''}",
              strengthened="methods now include GETX, GE, XGET, POSTS, GET|HEAD, HEADGET"),
 }
+
+# round 2: same protocol, the agents were additionally told which file the round-1 change touched and asked for a different function / clause
+S2 = {
+ "C01b": dict(change="src/http_api.cpp http::some_headers_data_read(): the 16K header-size check on total_read_ hoisted out of the more_data branch, so body bytes arriving with the end of the headers count as header bytes",
+              needs="HTTP; header block straddling two reads with >= ~16K of body following in the second read",
+              first="caught (exit 1): the read-answer explorer (one short first read of the 20000-byte POST) - 'reply is not a well-framed HTTP response'", strengthened=""),
+ "C02b": dict(change="src/http_request.cpp skip_after_period() (cookie parsing): stops ON the ';'/',' instead of after it, so parse_cookies() spins forever in the event-loop thread",
+              needs="a Cookie header in which a pair fails to parse and a ';' or ',' follows (`prefs={\"a\":1,\"b\":2}; sid=abc`, `a;; b=c`)",
+              first="caught (exit 1): the header-form menu contains a Cookie header whose first pair does not parse; the loop stops answering (service-hung, probes and every later case fail)", strengthened=""),
+ "C03b": dict(change="src/cgi_api.cpp connection::nonblocking_write(): pending_output_.clear() before its size is used, so `queued` bytes of new data are dropped when one write takes the whole queue plus part of the new data",
+              needs="asynchronous mode; a non-empty pending queue from an earlier short write; then a write accepted partially beyond the queue",
+              first="caught (exit 1): 10 violations (body-short / body-corrupt) in async partial-buffering programs under write deviations", strengthened=""),
+ "C04b": dict(change="src/xss.cpp uri_parser::scheme(): '-' no longer accepted as a scheme character ('_' instead), so `ms-msdt:` falls through to the lax relative-reference branch and bypasses the scheme white list",
+              needs="a uri / relative_uri property and a URI scheme containing '-' (ms-msdt:, view-source:, x-javascript:)",
+              first="missed (exit 0): no attribute value with a hyphenated scheme was generated",
+              strengthened="24 more attribute values: schemes using every character class RFC 3986 allows after the first letter ('-', '+', '.', digits) and near misses"),
+ "C05b": dict(change="src/base64.cpp b64url::decoded_size(): `switch(s%4)` replaced by `s*3/4`, so a length of 1 (mod 4) is no longer refused: extended cookies are accepted and load writes 3 bytes past a heap buffer",
+              needs="a cookie text whose body length is 1 (mod 4) and >= 5 (a valid cookie extended by one character)",
+              first="missed (exit 0): tampering changed the decoded CIPHER text and re-encoded it; the cookie TEXT never had an impossible length",
+              strengthened="text-level tampering: every single-character deletion, insertion at every (3rd) position, appending 1..6 characters, 'C'+n characters for n = 1..40; independent rule that no base64 text has length 1 (mod 4)"),
+ "C06b": dict(change="src/session_memory_storage.cpp save(): the deadline index is only re-keyed `if(timeout!=to)` - evaluated after timeout was assigned, so never - and keeps the first save's deadline",
+              needs="memory storage; a sid saved again with a later deadline; the clock past the first deadline but not the current one; then any save/remove (short_gc evicts the live session)",
+              first="missed (exit 0): needs 5 transitions + audit in the request-level BFS (quick depth 4)",
+              strengthened="the storages themselves as state machines: every sequence of <= 5 (6) storage operations (memory) / <= 3 (4) (files) over two sids from two starting states against a plain map"),
+ "C07b": dict(change="src/cache_storage.cpp mem_cache::store(): returns early when the deadline is already past - before the old entry under the key is removed",
+              needs="a live entry under K, then store(K, ..., deadline < now)",
+              first="missed (exit 0): store deadlines were {now+2, none}",
+              strengthened="stores with deadline now-1 and exactly now in the C07 and C08 alphabets (Op::dl <= -2)"),
+ "C08b": dict(change="src/cache_storage.cpp string_equal: memcmp replaced by strncmp, so keys that agree up to an embedded NUL compare equal when they meet in one bucket",
+              needs="binary keys with a NUL, equal length, same hash bucket",
+              first="missed (exit 0): keys were one-letter strings",
+              strengthened="C07/C08 configurations with binary keys that contain a NUL after a common first byte and have EQUAL PJW hash values (same bucket at every table size); printable key rendering in messages"),
+ "C09b": dict(change="private/hash_map.h basic_map::find(): a found entry is moved to the head of its hash chain - under the cache's shared read lock",
+              needs="two threads in fetch() at once and a fetched key that is not the head of its bucket (two live keys colliding)",
+              first="missed (exit 0): keys 'a' and 'b' never share a bucket, so find() never walked a chain",
+              strengthened="C09's two keys now have equal hash values; the data race is reported by the free-running ThreadSanitizer pass"),
+ "C10b": dict(change="src/tcp_cache_server.cpp session::on_data_in(): the reply header is no longer fully reset per request, so after one `error` reply every later request on that connection is skipped",
+              needs="one refused request on the connection (empty key / empty trigger name), then store/rise/clear on it and a fetch from another node",
+              first="caught (exit 1): the BFS alphabet contains the odd trigger names that provoke an error reply", strengthened=""),
+ "C11b": dict(change="src/json.cpp details::generic_append(): fast path `c >= 0x1F` instead of `> 0x1F`, so the byte 0x1F is written raw",
+              needs="a string value or key containing 0x1F, saved and loaded back",
+              first="caught (exit 1)", strengthened=""),
+ "C12b": dict(change="src/http_request.cpp read_file(): the rewind before copying a plain multipart field into post() removed",
+              needs="an application with a multipart_filter whose on_data_ready reads the part through file::data() and does not rewind",
+              first="missed (exit 0): the harness' filter only logged callbacks",
+              strengthened="filter modes that read each completed part fully / its first 3 bytes; the application must still get the whole field, and the filter must have seen the part"),
+ "C13b": dict(change="src/internal_file_server.cpp file_server::main(): the index file of a directory is no longer re-validated against the root",
+              needs="check_symlink on; a directory whose index.html is a symlink to outside; a request for the directory",
+              first="missed (exit 0): no directory with a symlinked index file in the sandbox",
+              strengthened="directories whose index.html is a symlink to outside, under the root and under an alias; 'lnkidx' is a path segment"),
+ "C14b": dict(change="src/encoding.cpp validate_or_filter_single_byte_charset(): in removal mode pos++ runs after erase, so the byte after a removed byte is not tested",
+              needs="single-byte code page, replace==0, two adjacent rejected bytes",
+              first="caught (exit 1): 36 violations", strengthened=""),
+ "C15b": dict(change="src/base64.cpp b64url::encode(begin,end,ostream): encodes in 4096-byte blocks (not a multiple of 3), so every non-final block ends in an unpadded tail",
+              needs="the ostream / filter path with an input longer than 4096 bytes",
+              first="missed (exit 0): lengths went up to 1024",
+              strengthened="every length within +-4 of k*1024 (k = 2..17), 32768 and 65536 through all variants"),
+ "C16b": dict(change="src/crypto.cpp hmac::init(): key_.size() > block_size became >=, so a key of exactly one block is hashed first",
+              needs="an HMAC key of exactly 64 (128) bytes compared with an independent reference",
+              first="caught (exit 1): 6 violations", strengthened=""),
+ "C17b": dict(change="src/thread_pool.cpp worker(): the job slot lives outside the loop and is cleared only after a normal return, so a job that threw runs again at the next wake-up without a new job",
+              needs="a throwing job, an empty queue, a later wake-up of the same worker (post or stop)",
+              first="caught (exit 1): S5 - j2 ran 2 times", strengthened=""),
+ "C18b": dict(change="src/session_posix_file_storage.cpp save_to_file(): the 16-byte header goes out in two write() calls (deadline, then crc+size)",
+              needs="a crash exactly between the two writes over a previous valid file: old data resurfaces under the new deadline",
+              first="caught (exit 1): an expired session is returned as live", strengthened=""),
+ "C19b": dict(change="cppcms/archive_traits.h map/multimap loader: hinted insert with a never-advanced hint, so runs of equal keys in a multimap load in reverse order",
+              needs="a multimap with >= 2 entries under one key and different mapped values",
+              first="caught (exit 1): multimap<int,string> round trip", strengthened=""),
+ "C20b": dict(change="src/url_mapper.cpp real_map(): the keyword-override map is kept in the mapper and cleared only by calls that have keywords",
+              needs="map(\"key;lang\",\"ru\",...) followed by a keyword-less map(\"key\",...) hitting a {lang} placeholder on the same mapper",
+              first="caught (exit 1): mapper round-trip programs", strengthened=""),
+}
 def first_violation(id):
     p = os.path.join(V, "seeded", id, "check_output.txt")
     if not os.path.exists(p): return None, None
     t = open(p).read(); m = re.search(r"^exit=(\d+)", t, re.M); w = re.search(r"^\s+what: (.*)$", t, re.M); n = len(re.findall(r"^VIOLATION", t, re.M))
     return (int(m.group(1)) if m else None), ("%d VIOLATION line(s); first: %s" % (n, w.group(1)[:300]) if w else "no VIOLATION line")
 rows = []
-for id in sorted(S):
-    d = S[id]; e, w = first_violation(id)
-    meta = {"property": id, "change": d["change"], "needs_to_manifest": d["needs"],
+ALL = dict(S); ALL.update(S2)
+for id in sorted(ALL):
+    d = ALL[id]; e, w = first_violation(id)
+    meta = {"property": id[:3], "round": 2 if id.endswith("b") else 1, "change": d["change"], "needs_to_manifest": d["needs"],
             "confirmed": {"applies_and_builds": True, "baseline_stable_tests": "61/61 pass with the change (parallel run, port collisions retried serially)",
-                          "demo_with_change": "exit != 0", "demo_without_change": "exit 0", "commands": [c.replace("<ID>", id) for c in CONFIRM]},
+                          "demo_with_change": "exit != 0", "demo_without_change": "exit 0", "commands": [c.replace("/tmp/seeded_out/<ID>", ("/tmp/seeded2/"+id[:3]) if id.endswith("b") else "/tmp/seeded_out/"+id).replace("<ID>", id[:3] if "run_seeds" not in c else id) for c in CONFIRM]},
             "check_when_first_run": d["first"], "strengthening": d["strengthened"] or None,
-            "check_now": {"command": "./check %s --tier quick (with patch.diff applied to /repo, reverted afterwards)" % id, "exit": e, "output": w}}
+            "check_now": {"command": "./check %s --tier quick (with patch.diff applied to /repo, reverted afterwards)" % id[:3], "exit": e, "output": w}}
     json.dump(meta, open(os.path.join(V, "seeded", id, "meta.json"), "w"), indent=1)
     rows.append("| %s | %s | %s | %s | %s |" % (id, d["change"].split(":")[0], d["needs"], d["first"].split(":")[0].split(" (")[0], ("exit %s" % e) if e is not None else "-"))
 open(os.path.join(V, "seeded", "README.md"), "w").write("""# Seeded changes
 
-One realistic property-breaking change per property, each made by an independent sub-agent that was given only the
+Two realistic property-breaking changes per property (round 1: `Cnn`, round 2: `Cnnb`), each made by an independent sub-agent that was given only the
 property text and a scratch worktree (nothing from /verif). Every change compiles, passes the 61 stable baseline tests,
 and comes with a demonstration that fails with the change and passes without it (re-confirmed here with
 `tools/confirm_seed.sh` and `tools/confirm_demo.sh`, in scratch worktrees outside /repo and /verif). None is committed
@@ -113,7 +187,7 @@ what the check said first and says now) and `check_output.txt` (the current chec
 |---|---|---|---|---|
 """ + "\n".join(rows) + """
 
-12 of the 20 changes were missed by the checks as they stood when the change arrived; each miss was a dimension the
-driver did not enumerate (see `meta.json: strengthening`), not a weak oracle. All 20 are detected now.
+Round 1: 12 of 20 missed when they arrived. Round 2 (agents told to stay away from the round-1 function): 9 of 20 missed.
+Each miss was a dimension the driver did not enumerate (see `meta.json: strengthening`), not a weak oracle. All 40 are detected now.
 """)
 print("wrote", len(rows), "meta.json files and seeded/README.md")
